@@ -78,6 +78,13 @@ func (fe *FnExec) doCallWith(fr *frame, st *State, in ssa.Instruction, cc *ssa.C
 		ftypes = append(ftypes, a.Type())
 	}
 	fe.curArgTypes = ftypes
+	// objects stored in use-guarded fields may be called, or handed to a callee, only under their guard
+	for _, v := range full {
+		if rec := fe.guardedVals[termOf(v)]; rec != nil {
+			cond := fe.invCtx(st, rec.this).evalBool(rec.g.X)
+			fe.oblige(fr, "guard:"+rec.name, rec.g.Props, st.pc, tOr(sx("<", "HW", rec.this.Base), cond), in.Pos(), "guarded object used in a call: "+rec.g.Src)
+		}
+	}
 	// caller-side assertions keyed to this call site (whatever the callee is)
 	if fr.con != nil {
 		if cs := fr.con.Calls[site]; cs != nil {
